@@ -104,7 +104,29 @@ func c16RandDoc(rnd *rand.Rand, fmtName string, blocks int) wpw.Doc {
 			d.Sheet = append(d.Sheet, st)
 		}
 	}
-	for len(d.Body) < blocks {
+	wraps, marks := []string{"section", "toc"}, []string{"softbreak", "sectionempty"}
+	if fmtName == "docx" {
+		wraps, marks = []string{"sdt", "customXml"}, []string{"bookmark", "proofErr", "sdtempty"}
+	}
+	wdepth := 0
+	if fmtName == "odt" && rnd.Intn(4) == 0 { // deleted text of tracked changes: first child of office:text
+		d.Body = append(d.Body, wpw.Block{K: "M", Ch: []wpw.Child{}, How: "tracked", Tb: noTbl})
+	}
+	for len(d.Body) < blocks || wdepth > 0 {
+		// block-level wrappers and markers between the blocks (never inside a list run: a
+		// bracket ends the run, and the next list block starts a new one)
+		if r := rnd.Intn(12); r == 0 && wdepth < 3 && len(d.Body) < blocks {
+			d.Body = append(d.Body, wpw.Block{K: "WO", Ch: []wpw.Child{}, How: wraps[rnd.Intn(len(wraps))], Tb: noTbl})
+			wdepth++
+			continue
+		} else if (r == 1 || len(d.Body) >= blocks) && wdepth > 0 {
+			d.Body = append(d.Body, wpw.Block{K: "WC", Ch: []wpw.Child{}, Tb: noTbl})
+			wdepth--
+			continue
+		} else if r == 2 {
+			d.Body = append(d.Body, wpw.Block{K: "M", Ch: []wpw.Child{}, How: marks[rnd.Intn(len(marks))], Tb: noTbl})
+			continue
+		}
 		if len(d.Sheet) > 0 && rnd.Intn(4) == 0 {
 			how := ""
 			if fmtName == "odt" && rnd.Intn(3) == 0 {
@@ -158,7 +180,11 @@ func c16RandDoc(rnd *rand.Rand, fmtName string, blocks int) wpw.Doc {
 			// a non-list block ends the run
 			d.Body = append(d.Body, wpw.Block{K: "P", Ch: c16RandChildren(rnd, fmtName, 1, 1), Tb: noTbl})
 		default:
-			d.Body = append(d.Body, wpw.Block{K: "TBL", Ch: []wpw.Child{}, Tb: c16RandTable(rnd, 4)})
+			how := ""
+			if rnd.Intn(5) == 0 { // the cells' paragraphs inside a cell-level content control / section
+				how = map[string]string{"docx": "cellsdt", "odt": "cellsec"}[fmtName]
+			}
+			d.Body = append(d.Body, wpw.Block{K: "TBL", Ch: []wpw.Child{}, How: how, Tb: c16RandTable(rnd, 4)})
 		}
 	}
 	return d
